@@ -276,6 +276,12 @@ class Harness:
         if self.I is not None:
             self.I.watch[qualname_suffix] = callback
 
+    def loop_invariant(self, qualname_suffix, callback):
+        """Ghost hook at the head of every iteration of every `for` loop of an interpreted function:
+        callback(locals, lineno) states the loop invariant (as lemmas)."""
+        if self.I is not None:
+            self.I.loop_heads[qualname_suffix] = callback
+
     def cover(self, name):
         """Reachability witness: this program point was reached on a feasible path."""
         self.covers[name] = self.covers.get(name, 0) + 1
